@@ -53,7 +53,7 @@ def coq_draws(los):
 def correspond(ctx):
     rng, tier = ctx["rng"], ctx["tier"]
     npr = rng.nprng()
-    n = 10 if tier == "quick" else 80
+    n = 10 if tier == "quick" else 240
     cases, meta = [], []
     for k in range(n):
         par = gen_par(rng, 8 if tier == "quick" else 12)
